@@ -11,7 +11,7 @@ NI = (B + '._read_next_block',)
 def stores_into(I, fi):
     """item stores into the array the function returns (whatever the local is called)"""
     names = {n.value.id for n in ast.walk(fi.node) if isinstance(n, ast.Return) and isinstance(n.value, ast.Name)}
-    return [e for e in I.events if e.kind == 'store' and e.data.get('target') == 'sub' and e.func.short == fi.short
+    return [e for e in I.events if e.kind == 'store' and e.data.get('target') == 'sub' and e.owner == fi.short
             and isinstance(e.data.get('base_node'), ast.Name) and e.data['base_node'].id in names]
 
 
@@ -127,7 +127,7 @@ def run(ctx):
     ctx.clause = 'D3'
     rec = ctx.func(B + '.record')
     r, I = ctx.run(rec, no_inline=RECORD_NO_INLINE, sticky_attrs=('num_blocks',))
-    wr = [e for e in ctx.calls(I, name='.write') if e.func.short == rec.short]
+    wr = [e for e in ctx.calls(I, name='.write') if e.owner == rec.short]
     ctx.require(wr, 'record() no longer writes data blocks')
     blk = [e for e in I.events if e.kind == 'call' and e.data.get('name') == B + '.collect_data_block']
     ctx.require(blk, 'record() no longer calls collect_data_block')
